@@ -119,6 +119,13 @@ func c07One(e *c03Env, o *out, r *rng, rule c03Rule, mode string, allPerms bool)
 		return
 	}
 	query := append(append([]c03KV{}, sp.Query...), inject...)
+	kind := "C07"
+	if strings.Contains(mode, "x") {
+		// a key no query may use (through a repeated / map field, an unknown name): the request may be
+		// refused, but if the handler is reached the path-bound fields carry the captures
+		kind = "C07X"
+		query = append(query, c03KV{r.picks(c03BadKeys[:8]), r.picks([]string{"x", "1", "a"})})
+	}
 	// key groups and their permutations
 	var keys []string
 	groups := map[string][]c03KV{}
@@ -149,7 +156,7 @@ func c07One(e *c03Env, o *out, r *rng, rule c03Rule, mode string, allPerms bool)
 		for _, i := range ord {
 			q = append(q, groups[keys[i]]...)
 		}
-		c := &c03Case{Kind: "C07", Rule: rule, Caps: caps, Query: q, Body: sp.Body, Expect: strings.Join(exps, ",")}
+		c := &c03Case{Kind: kind, Rule: rule, Caps: caps, Query: q, Body: sp.Body, Expect: strings.Join(exps, ",")}
 		e.emit(o, c)
 		o.count("rule=" + rule.Name)
 		o.count("inject=" + mode)
@@ -177,6 +184,12 @@ func c07Gen(o *out, r *rng, tier string) {
 			modes := []string{"-", "q", "qs"}
 			if rule.Body != "" {
 				modes = append(modes, "b", "bq", "bqs")
+			}
+			if n%4 == 0 {
+				modes = append(modes, "qx")
+				if rule.Body != "" {
+					modes = append(modes, "bx", "bqx")
+				}
 			}
 			for _, mode := range modes {
 				c07One(e, o, r, rule, mode, n%3 == 0)
